@@ -393,6 +393,9 @@ func (hs *history) recover(oc map[uint64]int) (crashed bool) {
 		map[string]any{"op": "recover", "outcomes": ocd, "handler_calls": calls, "panicked": crashed})
 	hs.stat["recover"]++
 	hs.stat[fmt.Sprintf("recover_calls=%d", imin(len(calls), 6))]++
+	if len(calls) >= 64 {
+		hs.stat["recover_calls>=64"]++
+	}
 	return crashed
 }
 
@@ -587,6 +590,68 @@ func randomBody(r *vh.Run, nops int, concurrent bool, inject bool) script {
 	}
 }
 
+// pendingScript leaves exactly n events pending at the first Recover (three extra ones are
+// committed), lets a third of them fail so that the second Recover still sees many, then recovers
+// once more after a restart.
+func pendingScript(n int) script {
+	return func(hs *history) {
+		for i := 0; i < n+3; i++ {
+			hs.logOne(i%ntypes, true)
+		}
+		hs.commit(0)
+		hs.commit(n / 2)
+		hs.commit(n + 2)
+		oc := map[uint64]int{}
+		for tok := uint64(1); tok <= uint64(n+3); tok++ {
+			switch tok % 3 {
+			case 0:
+				oc[tok] = oHandleErr
+			case 1:
+				if tok%2 == 0 {
+					oc[tok] = oCheckErr
+				}
+			}
+		}
+		hs.recover(oc)
+		hs.recover(map[uint64]int{uint64(n): oNotNeeded})
+		hs.reopen(0, []int{0, 1, 2, 3})
+		hs.recover(nil)
+	}
+}
+
+// largeBody: 64-200 events logged, a few committed, recoveries with mostly failing handlers
+func largeBody(r *vh.Run) script {
+	return func(hs *history) {
+		rng := r.Rng
+		n := 64 + rng.Intn(137)
+		for i := 0; i < n; i++ {
+			hs.logOne(rng.Intn(ntypes), true)
+		}
+		for i := 0; i < rng.Intn(6); i++ {
+			hs.commit(rng.Intn(n))
+		}
+		for round := 0; round < 2+rng.Intn(2); round++ {
+			oc := map[uint64]int{}
+			for tok := uint64(1); tok <= hs.nextTok; tok++ {
+				switch y := rng.Intn(10); {
+				case y < 5:
+					oc[tok] = oHandleErr
+				case y < 6:
+					oc[tok] = oCheckErr
+				case y < 7:
+					oc[tok] = oDecodeErr
+				case y < 8:
+					oc[tok] = oNotNeeded
+				}
+			}
+			hs.recover(oc)
+			if rng.Intn(2) == 0 {
+				hs.reopen(rng.Intn(2), subset(rng, true))
+			}
+		}
+	}
+}
+
 func corpus() []script {
 	all := []int{0, 1, 2, 3}
 	return []script{
@@ -657,6 +722,9 @@ func corpus() []script {
 			hs.recover(map[uint64]int{10: oHandleErr, 17: oNotNeeded, 33: oCheckErr})
 			hs.recover(nil)
 		},
+		// many pending events at a recovery (a scan that works in batches must not repeat or drop
+		// the entries at a batch boundary): exactly 63, 64, 65, 128, 129 pending
+		pendingScript(63), pendingScript(64), pendingScript(65), pendingScript(128), pendingScript(129),
 		// foreign and corrupt entries under /events/: skipped by Recover, never deleted, ids and replay unaffected
 		func(hs *history) {
 			hs.logOne(0, true)
@@ -710,7 +778,12 @@ func TestC16(t *testing.T) {
 			map[string]any{"kind": "random", "concurrent": conc, "foreign_keys": i%2 == 1})
 		idx++
 	}
-	r.Finish("corpus (each handler outcome, commit/double commit, restart, crashed Log, missing handler, handler panic, >16 and >255 ids) then random histories of 5-40 operations over 4 event types on a real bbolt file: Log (incl. unknown type / Encode failure), Commit (incl. stale closures of a closed instance), close+reopen with 0-3 burnt sequence numbers and a random handler set, Recover with scripted per-event outcomes (ok, handle error, not needed, check error, decode error, panic), batches of 2-4 concurrent loggers linearised by the ids found in the file; every history ends with a scan of the file; non-trivial = at least one successful Log and one Recover")
+	nl := r.N(6, 60)
+	for i := 0; i < nl; i++ {
+		runHistory(t, r, dir, idx, all, largeBody(r), map[string]any{"kind": "large"})
+		idx++
+	}
+	r.Finish("corpus (each handler outcome, commit/double commit, restart, crashed Log, missing handler, handler panic, >16 and >255 ids, exactly 63/64/65/128/129 events pending at a recovery, foreign and corrupt entries) then random histories of 5-40 operations over 4 event types on a real bbolt file: Log (incl. unknown type / Encode failure), Commit (incl. stale closures of a closed instance), close+reopen with 0-3 burnt sequence numbers and a random handler set, Recover with scripted per-event outcomes (ok, handle error, not needed, check error, decode error, panic), batches of 2-4 concurrent loggers linearised by the ids found in the file; foreign writes of corrupt / foreign entries in half of the histories, and a few large histories with 64-200 pending events at a recovery; every history ends with a scan of the file; non-trivial = at least one successful Log and one Recover")
 
 	// ---- key codec ----
 	k := vh.New(t, "C16", "keys")
